@@ -508,3 +508,21 @@ Proof.
          (1700000000000000000 + 57 * ns_per_s), (1700000000000000000 + 2 * ns_per_s).
   vm_compute. repeat split; congruence.
 Qed.
+
+(* end to end: a connection accepted with a token expiring at E whose client keeps answering
+   pings (and is neither cancelled nor evicted nor closing itself) is ended by the relay only by
+   the expiry timer, and that inside the second after E - never before E *)
+Lemma not_ended_before_expiry t tok f evs h :
+  ws_accept t tok true = Accepted f -> exp tok - floor_s t <= max_ttl ->
+  timely (t + ping_period) None (evs ++ [(EDataIn, h)]) = true ->
+  match status (run (start t f) evs h) with
+  | Open => True
+  | Closed r a => r = Expiry /\ exp tok * ns_per_s <= a < (exp tok + 1) * ns_per_s
+  end.
+Proof.
+  intros Ha Hm Ht. destruct (accepted_inside_window t tok true f Ha) as (Hw & _ & Hf).
+  pose proof (no_early_close t f evs h Ht) as Hn.
+  destruct (status (run (start t f) evs h)); [exact I|].
+  destruct Hn as [-> ->]. split; [reflexivity|]. subst f.
+  apply close_within_a_second. lia.
+Qed.
